@@ -341,6 +341,13 @@ package server
 //@ func (*blobDownload).run$2
 //@   requires len(b.Digest) >= 19
 //@   loop 1 invariant b == old(b) && b.Digest == old(b.Digest)
+// "rename to the digest name only when every part is complete": run renames after g.Wait() == nil,
+// i.e. after every part goroutine returned nil - and a part goroutine returns nil only when its
+// LAST downloadChunk attempt returned nil (never because the group is shutting down, retries ran
+// out, or the context ended) - added after seeded change C03-seed2
+//@   ghost-at entry : ghost_dl := 0
+//@   ghost-at after call downloadChunk : ghost_dl := ite(result == nil, 1, 0)
+//@   ensures result == nil ==> ghost_dl == 1
 
 // Loops: 1 start part goroutines   2 remove part records.
 //@ func (*blobDownload).run
